@@ -56,7 +56,8 @@ AddNode(m, id, p, name, l, s, v) ==
 
 MaxI(a, b) == IF a > b THEN a ELSE b
 \* length of a branch obtained by joining two branches (removeTip, UnRoot): absent only if both are
-JoinLen(l1, l2) == IF l1 = NIL /\ l2 = NIL THEN NIL ELSE MaxI(0, l1) + MaxI(0, l2)
+\* (only the absent value counts as 0: a negative length keeps its value -- lengthOrZero in tree.go)
+JoinLen(l1, l2) == IF l1 = NIL /\ l2 = NIL THEN NIL ELSE Num(l1) + Num(l2)
 
 ErrTree == [nodes |-> {}, root |-> 0, par |-> <<>>, nm |-> <<>>, len |-> <<>>, sup |-> <<>>, pv |-> <<>>]
 \* ok: some traversal order succeeds; res: the possible results; refuse: some traversal order refuses
@@ -277,7 +278,7 @@ OutGroupFrom(u, S, strict, remove, temproot) ==
                        L  == m3.len[x]
                        s  == m3.sup[x]
                        f  == FreshId(m3)
-                       half == IF L > 0 THEN L \div 2 ELSE NIL
+                       half == IF L # NIL THEN L \div 2 ELSE NIL      \* a negative or zero length is halved too
                        hs == IF L > 0 THEN s ELSE NIL
                        m4 == AddNode(m3, f, 0, "", NIL, NIL, NIL)
                        m5 == SetBr(SetBr(m4, x, f, half, hs, NIL), y, f, half, hs, NIL)
